@@ -33,6 +33,14 @@ CHECKS = {
              "discovery filter and the output-name infix are the same literal. Isolation for every directory tree and fault placement follows from these shapes; the tests run one file.",
         ref="DESIGN 3/C18",
         note=TB + "; byte-identity of outputs additionally relies on C15 (purity) and is not compared at run time"),
+    "C12": dict(
+        technique="static path counting + loop-carried dependence + reaching-definition value flow (ast CFG) over make_readable_bulk",
+        category="other",
+        text="Proves on all paths that each iteration appends exactly once to an append-only accumulator, that the loop is left only by exhaustion, that nothing is carried "
+             "between iterations, and - by following reaching definitions - that the appended pair is (make_readable(mode, very_readable) of this entry's own pair)[0] with the "
+             "label of ColorPair(that colour, same bg, same large); invalid entries append (text, non-readable constant). Holds for every list, order and mix of entries.",
+        ref="DESIGN 3/C12",
+        note=TB + "; correctness of make_readable / is_readable themselves is C01/C05/C06"),
 }
 
 NOT_APPLICABLE = {
